@@ -16,7 +16,7 @@ run_worker() {
     prop=${id%%-*}
     git -C "$wt" checkout -q -- .
     if ! git -C "$wt" apply "/verif/seeded/$id/patch.diff" 2>/dev/null; then echo "$id: patch no longer applies"; continue; fi
-    out=$(VERIF_REPO="$wt" ./check "$prop" quick 2>&1 | grep -v '^KNOWN-FINDING' | tail -3 | tr '\n' ' ' | cut -c1-500)
+    out=$(VERIF_REPO="$wt" ./check "$prop" quick 2>&1 | grep -av '^KNOWN-FINDING' | tail -3 | tr '\n' ' ' | cut -c1-500)
     echo "$id: $out"
   done
   git -C /repo worktree remove --force "$wt"
